@@ -162,6 +162,9 @@ func validateInputTypeCompatibility(
 	handler reflect.Value,
 ) error {
 	// Validate the input types match the provided ones.
+	if handler.Kind() != reflect.Func {
+		return fmt.Errorf("handler must be a function, %s given", handler.Kind())
+	}
 	specifiedParams := len(inputs)
 	actualParams := handler.Type().NumIn()
 	if specifiedParams != actualParams {
